@@ -330,8 +330,14 @@ def check_calendar(prog, rep):
     # (1) field table from the call sites of the inner field parser
     calls = []
     for n in f.walk():
+        # the field parser is an inner lambda or a helper function template: (pos, end, utc.<Field>, min, max, delimiter, ...)
         if n['k'] == 'CXXOperatorCallExpr' and (f.callee(n) or {}).get('n') == 'operator()' and len(n.get('c', [])) >= 5:
             args = n['c'][2:]
+        elif n['k'] == 'CallExpr' and (f.callee(n) or {}).get('repo') and len(n.get('c', [])) >= 4:
+            args = n['c'][1:]
+        else:
+            continue
+        if True:
             tgt = [m.get('m') for m in f.walk(args[2]) if m['k'] == 'MemberExpr']
             if not tgt:
                 continue
@@ -363,19 +369,28 @@ def check_calendar(prog, rep):
         if i != 1 and dim[i] != exp_dim[i]:
             rep.finding('R15.4', 'DaysInMonth[%d]' % i, f.loc(), 'DaysInMonth[%d] is %d, the Gregorian calendar has %d' % (i, dim[i], exp_dim[i]), func=f.id)
     # (2) acceptance of (year residue, month, day): day bound from the table plus the guards that mention utc.Year
+    utc = [n for n in f.walk() if n['k'] == 'DeclRefExpr' and n.get('n') == 'utc']
+    if not utc:
+        raise AnalysisBroken('R15.4: local "utc" not found')
+    utc_d = utc[0]['d']
+    from bsv.expr import named_inits
+    inits = named_inits(f)
+    temps = {}
     guards = []
     for n in f.walk():
         if n['k'] == 'IfStmt':
             c0 = child(n, 'cond')
             names = set(m.get('m') for m in f.walk(c0) if m['k'] == 'MemberExpr')
+            tl = []
+            for x in f.walk(c0):
+                if x['k'] == 'DeclRefExpr' and x.get('d') in inits and x.get('d') != utc_d:
+                    tl.append((x['d'], inits[x['d']]))
+                    names |= set(m.get('m') for m in f.walk(inits[x['d']]) if m['k'] == 'MemberExpr')
+            temps[id(c0)] = tl
             if 'Year' in names and names <= {'Year', 'Month', 'Day'}:
                 th = [x for x in f.walk(child(n, 'then')) if x['k'] == 'CXXThrowExpr']
                 if th:
                     guards.append((c0, 'invalid_argument' in f.type(strip(th[0]['c'][0])) if th[0].get('c') else False))
-    utc = [n for n in f.walk() if n['k'] == 'DeclRefExpr' and n.get('n') == 'utc']
-    if not utc:
-        raise AnalysisBroken('R15.4: local "utc" not found')
-    utc_d = utc[0]['d']
     class GuardModel(Model):
         """guards are closed integer expressions over the three fields; small library helpers are inlined, conversions wrap like the hardware"""
         def primitive(self, it, fr, n, callee, depth):
@@ -398,6 +413,10 @@ def check_calendar(prog, rep):
                 acc = 1 <= d <= dim[m - 1]
                 for c0, is_inv in guards:
                     it.steps = 0
+                    it.path.actions = []
+                    it.frames = {id(fr): fr}
+                    for dd, ini in temps[id(c0)]:
+                        fr.env[dd] = it.ev(fr, ini, 0)        # named temporaries of the guard, in declaration order
                     v = it.ev(fr, c0, 0)
                     if not isinstance(v, (int, bool)):
                         raise AnalysisBroken('R15.4: guard at %s is not decided for year %d, %02d-%02d' % (f.loc(c0), y, m, d))
